@@ -42,3 +42,48 @@ CHECKS["C12"] = dict(
                  "sample() with total weight exactly 0 is not judged (no element has a non-empty interval)",
                  "interval tolerance 1e-9 * max total weight since last empty (incremental floating-point sums)"],
 )
+
+CHECKS["C13"] = dict(
+    src="harness/C13_grid.cpp",
+    cases=dict(quick=150000, thorough=2500000),
+    fuzz=dict(runs=4000000, maxlen=600),
+    rule="Case = grid variant {Grid, GridN, GridB, GridB<less,greater>} x dimension 1..5 x optional bounds (low<up) x optional interior-"
+         "neighbour limit x history (<=60 ops) of createCell+add (never a duplicate coordinate) / remove+destroyCell / update / updateAll / "
+         "clear / create+remove of a never-added cell; coordinates from a small box (neighbours common), around the bounds, and +-2^30. "
+         "Oracle = coordinate->cell map: lookups of present cells and absent neighbours, neighbour sets (exactly the present cells at L1 "
+         "distance 1, symmetric), GridN/GridB neighbour counts and border flags, GridB queue counts and tops (only when the queue is "
+         "non-empty), components() vs flood fill. Non-trivial = (GridN/GridB) a removal flipped at least one neighbour from interior to "
+         "border, (plain Grid) >=3 cells at the end; distinct = distinct consumed choice-byte prefix.",
+    technique="model-based property testing of operation histories (coordinate-map model, flood-fill reference) + libFuzzer",
+    level_text="Generated create/add/remove/update histories on all four grid variants are compared after every operation with a "
+               "coordinate-map model; exploration-level.",
+    level_note="Trusted: the std::map model and flood fill in the harness. Callers' protocol is respected (createCell immediately followed "
+               "by add, no duplicate coordinates, top*() only on a non-empty queue).",
+    assumptions=["createCell is always paired with add, and a coordinate is never added twice (Discretization.h / KPIECE callers)",
+                 "topInternal()/topExternal() are only called when the respective count is > 0",
+                 "bounds are generated with low < up in every dimension"],
+)
+
+CHECKS["C10"] = dict(
+    src="harness/C10_nn.cpp",
+    cases=dict(quick=600000, thorough=6000000),
+    fuzz=dict(runs=6000000, maxlen=700),
+    rule="Case = structure {GNAT, GNATNoThreadSafety, Linear, SqrtApprox} x GNAT parameters (degree 2..8, min/max degree, leaf size 1..8, "
+         "removed-cache 1..16, rebalancing; 12% library defaults) x metric {L1, L2, Linf} x dimension 1..3 x point distribution {4-lattice "
+         "(duplicates, exact ties), 16-lattice, tight clusters 1000 apart, uniform} x history (<=70 ops) of add / add(vector<=24) / "
+         "remove(member) / remove(never added) / clear / nearest / nearestK(k in {0,1,2..12,size,size+3}) / nearestR(r in {0, exact tie "
+         "distance, 1e9, uniform}) / list. Elements are (id, point) with == on id. Oracle = brute force over the model vector: size, list "
+         "multiset, remove return value, every returned element currently live and returned once, non-decreasing order, distance vector "
+         "equal to the brute-force one bit for bit (exact structures; SqrtApprox: nearest is live, K/R exact). Non-trivial = a query "
+         "issued after a remove while more than leaf-size elements are live (the tree has split); distinct = consumed byte prefix.",
+    technique="model-based property testing of operation histories against brute-force search + libFuzzer on the same target",
+    level_text="Generated histories over all four structures and the whole GNAT parameter space are compared with exhaustive search after "
+               "every operation; exploration-level.",
+    level_note="Trusted: the brute-force model and the three harness metrics (exact on lattice points). GNAT's pivot RNG is re-seeded per "
+               "case so a case is a pure function of its bytes.",
+    assumptions=["the distance function is a metric on points (L1/L2/Linf); distinct elements may share a point",
+                 "nearest() on an empty structure throws ompl::Exception (documented)",
+                 "bit-exact comparison where the metric is computed without rounding (L1/Linf on lattice points); for L2 and non-lattice "
+                 "points elements tying with the radius / k-th distance within 1e-12 relative may be kept or pruned (the computed function "
+                 "is a metric only up to rounding; confirmed by a strict-mode probe: 1 boundary-tie miss in 20000 cases)"],
+)
